@@ -11,12 +11,14 @@ from __future__ import annotations
 from .core import Inconclusive, Violation
 
 
-def single_preemptions(run_and_judge, n_lines, stride=1, offset=0, max_alts=8):
+def single_preemptions(run_and_judge, n_lines, stride=1, offset=0, max_alts=8, max_runs=None):
     """-> (runs, [(Violation, (line, alt)), ...], inconclusive)
     alt encodes (index of the thread that takes over, mode): alt = 2*index + m, m=0 'delay' (the preempted thread
     stays suspended until nothing else can run), m=1 'yield' (it competes again as soon as the other one blocks)"""
     runs, viol, inconclusive = 0, [], 0
     for line in range(1 + offset % max(1, stride), n_lines + 1, max(1, stride)):
+        if max_runs is not None and runs >= max_runs:
+            break  # case-count bound of the quick tier (deterministic); the thorough tier has none
         for index in range(max_alts):
             n_c = None
             for m in (0, 1):
@@ -40,3 +42,11 @@ def single_preemptions(run_and_judge, n_lines, stride=1, offset=0, max_alts=8):
 
 def line_sparse(alt):
     return dict(pre=[], blk=[], line_pick=alt // 2, line_mode="delay" if alt % 2 == 0 else "yield")
+
+
+def plan_stride(n_lines, tier, target_runs=600):
+    """thorough: every line; quick: an evenly spaced subset sized so that about `target_runs` runs result
+    (each line costs about 1.6 runs: alternatives x delay/yield)"""
+    if tier == "thorough":
+        return 1
+    return max(1, -(-int(n_lines * 1.6) // target_runs))
